@@ -27,10 +27,20 @@ func concInt(v Value) int {
 	if !t.IsConst() {
 		panic(engineAbort{"harness bound must be concrete"})
 	}
-	return int(toSigned(t.C, t.S.W))
+	return int(termInt64(t, true))
 }
 
 func (in *Interp) nondetScalar(tag, kind string, w int) *Term {
+	if in.intMode && w == 64 {
+		var t *Term
+		if kind == "int" {
+			t = in.intSym(tag, minI64, maxI64)
+		} else {
+			t = in.intSym(tag, big0, maxU64)
+		}
+		in.nondets = append(in.nondets, NondetRec{Tag: tag, Kind: kind, Terms: []*Term{t}})
+		return t
+	}
 	var s Sort
 	if kind == "bool" {
 		s = SBool
@@ -64,7 +74,7 @@ func vIntrinsic(name string) intrinsic {
 			}
 			k := in.pick(hi - lo + 1)
 			in.nondets = append(in.nondets, NondetRec{Tag: tag, Kind: "len", Pick: lo + k})
-			return in.tb.BVConst(64, uint64(lo+k))
+			return in.mkInt(int64(lo + k))
 		}
 	case "vnondetBytes":
 		return func(in *Interp, fr *frame, a []Value) Value {
@@ -122,15 +132,29 @@ func vIntrinsic(name string) intrinsic {
 			in.frozen = nil
 			return nil
 		}
-	case "vconcU64":
+	case "vconcU64", "vconcInt":
 		return func(in *Interp, fr *frame, a []Value) Value {
 			t := a[0].(*Term)
+			if t.S.K == KInt {
+				if t.IsConst() {
+					return t
+				}
+				return in.mkInt(int64(in.chooseValue(in.tb.Int2BV(t, 64), "vconc")))
+			}
 			return in.tb.BVConst(int(t.S.W), in.chooseValue(t, "vconc"))
 		}
-	case "vconcInt":
+	case "vnondetRange":
 		return func(in *Interp, fr *frame, a []Value) Value {
-			t := a[0].(*Term)
-			return in.tb.BVConst(int(t.S.W), in.chooseValue(t, "vconc"))
+			tag := concStr(a[0])
+			lo, hi := a[1].(*Term), a[2].(*Term)
+			if in.intMode {
+				t := in.intSym(tag, lo.BigVal(), hi.BigVal())
+				in.nondets = append(in.nondets, NondetRec{Tag: tag, Kind: "u64", Terms: []*Term{t}})
+				return t
+			}
+			t := in.nondetScalar(tag, "u64", 64)
+			in.assume(in.tb.And(in.tb.Cmp(OUle, lo, t), in.tb.Cmp(OUle, t, hi)))
+			return t
 		}
 	case "vcap":
 		return func(in *Interp, fr *frame, a []Value) Value {
@@ -148,7 +172,7 @@ func vIntrinsic(name string) intrinsic {
 			if v, ok := in.cfg.Params[name]; ok {
 				def = v
 			}
-			return in.tb.BVConst(64, uint64(int64(def)))
+			return in.mkInt(int64(def))
 		}
 	case "vsameArray":
 		// do two slices share their backing array cell at index 0? (aliasing probe)
